@@ -26,6 +26,13 @@ struct vent_citerator _ZNKSt6vectorIN4bloc14FunctorManager5EntryESaIS2_EE3endEv(
 _Bool _ZN9__gnu_cxxneIPKN4bloc14FunctorManager5EntryESt6vectorIS3_SaIS3_EEEEbRKNS_17__normal_iteratorIT_T0_EESE_(const struct vent_citerator *a, const struct vent_citerator *b) { return IT_PTR(a) != IT_PTR(b); }
 const struct FunctorManager__Entry *_ZNK9__gnu_cxx17__normal_iteratorIPKN4bloc14FunctorManager5EntryESt6vectorIS3_SaIS3_EEEdeEv(const struct vent_citerator *this)
 { __CPROVER_assert(IT_PTR(this) >= &g_src[0] && IT_PTR(this) < &g_src[g_src_len], "std::vector iterator dereferenced inside [begin, end)"); return IT_PTR(this); }
+const struct FunctorManager__Entry *_ZNK9__gnu_cxx17__normal_iteratorIPKN4bloc14FunctorManager5EntryESt6vectorIS3_SaIS3_EEEptEv(const struct vent_citerator *this)
+{ return _ZNK9__gnu_cxx17__normal_iteratorIPKN4bloc14FunctorManager5EntryESt6vectorIS3_SaIS3_EEEdeEv(this); }   /* it->x is (*it).x */
+/* by position: the source list */
+unsigned long _ZNKSt6vectorIN4bloc14FunctorManager5EntryESaIS2_EE4sizeEv(const struct vec_Entry *this)
+{ __CPROVER_assert((const void *)this == (const void *)&g_src_fm._declarations, "model: only the source list is measured"); return g_src_len; }
+const struct FunctorManager__Entry *_ZNKSt6vectorIN4bloc14FunctorManager5EntryESaIS2_EEixEm(const struct vec_Entry *this, unsigned long n)
+{ __CPROVER_assert((const void *)this == (const void *)&g_src_fm._declarations, "model: only the source list is read by position"); __CPROVER_assert(n < g_src_len, "std::vector<Entry>::operator[] const: index within size() (undefined behaviour otherwise)"); return &g_src[n]; }
 struct vent_citerator *_ZN9__gnu_cxx17__normal_iteratorIPKN4bloc14FunctorManager5EntryESt6vectorIS3_SaIS3_EEEppEv(struct vent_citerator *this) { IT_PTR(this) = IT_PTR(this) + 1; return this; }
 void _ZNSt6vectorIN4bloc14FunctorManager5EntryESaIS2_EE5clearEv(struct vec_Entry *this)
 { __CPROVER_assert((void *)this != (void *)&g_src_fm._declarations, "the source list is not cleared"); g_dst_len = 0; g_clear_n++; }
